@@ -113,8 +113,19 @@ def sh(cmd, cwd, env, timeout=1800):
     return r.returncode, (r.stdout + r.stderr)[-1500:]
 
 
+def spec_of(idn, out):
+    """round 7 on: the demonstration's coordinates are in the sub-agent's meta.json ("demo": {crate, test, features, needs_bins})"""
+    if idn in SPEC:
+        return SPEC[idn]
+    d = json.load(open(os.path.join(out, "meta.json")))
+    if isinstance(d, list):
+        d = d[0]
+    d = d["demo"]
+    return ("itest", d["crate"], d["test"], d.get("features") or None, bool(d.get("needs_bins")))
+
+
 def demo(idn, wt, out, env):
-    kind, crate, what, feat, bins = SPEC[idn]
+    kind, crate, what, feat, bins = spec_of(idn, out)
     if bins:
         rc, o = sh(["cargo", "build", "--offline", "-p", "octo-squirrel-client", "-p", "octo-squirrel-server"], wt, env)
         if rc != 0:
